@@ -5,7 +5,7 @@ import ast
 from typing import List, Optional
 
 from ..cfg import cfg_of
-from ..model import FunctionInfo
+from ..model import FunctionInfo, bind_args
 from ..roles import roles_of
 from ..terms import call_name, canon, const_num, dotted
 from .c15 import is_gp_expr
@@ -152,6 +152,65 @@ def retry_consistency(ctx, prog, fit_fns, rule_id="R2"):
         ctx.rules[rule_id].floor = 0
 
 
+def stored_noise_consistency(ctx, prog, fit_fns, rule_id="R5"):
+    """gpyreg's fit keeps the receiver's stored noise vector when its s2 argument is None (``if s2 is not None: self.s2 =
+    s2``).  When a retry drops rows from X and Y, the receiver's stored vector must be thinned with the same mask - unless
+    the s2 argument is None exactly when the stored vector is (every caller passes ``<gp>.s2`` of the very surrogate the
+    receiver is copied from)."""
+    ctx.rule(rule_id, "after rows are dropped in a retry, the noise vector the next fit falls back to (receiver.s2) has the same rows", floor=1)
+    n = 0
+    for fn in fit_fns:
+        for c in fit_calls(prog, fn):
+            loop = enclosing(prog, c, (ast.While, ast.For), fn.node)
+            if loop is None or len(c.args) < 2 or not all(isinstance(a, ast.Name) for a in c.args[:2]):
+                continue
+            xn = c.args[0].id
+            masks = [(canon(v.slice), st) for t, v, st, k in iter_stores(loop) if isinstance(t, ast.Name) and t.id == xn and isinstance(v, ast.Subscript) and isinstance(v.value, ast.Name) and v.value.id == xn]
+            if not masks:
+                continue
+            n += 1
+            recv = canon(c.func.value)
+            stored = [(canon(v.slice), st) for t, v, st, k in iter_stores(loop) if canon(t) == f"{recv}.s2" and isinstance(v, ast.Subscript) and canon(v.value) == f"{recv}.s2"]
+            if stored and {m for m, _ in stored} == {m for m, _ in masks}:
+                ctx.ok(fn, stored[0][1], f"{recv}.s2 thinned with the mask of {xn}")
+                continue
+            # (b) the s2 argument is None iff the stored vector is None
+            s2a = c.args[2] if len(c.args) > 2 else kw(c, "s2")
+            okb = False
+            why = "the s2 argument of the retried fit is not a local derived from a parameter"
+            if isinstance(s2a, ast.Name):
+                def src_params(name, depth=0):
+                    out = set()
+                    for t, v, st, k in iter_stores(fn.node):
+                        if isinstance(t, ast.Name) and t.id == name and v is not None and not (isinstance(v, ast.Subscript) and canon(v.value) == name):
+                            for x in ast.walk(v):
+                                if isinstance(x, ast.Name) and x.id != name:
+                                    if x.id in fn.params:
+                                        out.add(x.id)
+                                    elif depth < 2 and x.id not in ("np",):
+                                        out |= src_params(x.id, depth + 1)
+                    return out
+                sp_ = src_params(s2a.id) if s2a.id not in fn.params else {s2a.id}
+                rp = src_params(recv) if recv not in fn.params else {recv}
+                sites = prog.callers_of(fn)
+                if len(sp_) == 1 and len(rp) == 1 and sites:
+                    okb, why = True, ""
+                    for caller, call in sites:
+                        b = bind_args(fn, call)
+                        a_s, a_r = b.get(next(iter(sp_))), b.get(next(iter(rp)))
+                        if a_s is None or a_r is None or canon(a_s) != canon(a_r) + ".s2":
+                            okb = False
+                            why = f"{caller.short}() passes '{canon(a_s) if a_s is not None else '?'}' as noise while the fitted surrogate is a copy of '{canon(a_r) if a_r is not None else '?'}'"
+                elif not sites:
+                    why = "no call site"
+            if okb:
+                ctx.ok(fn, masks[0][1], f"every caller passes <gp>.s2 of the copied surrogate: the argument is None only when {recv}.s2 is None")
+            else:
+                ctx.fail(fn, masks[0][1], f"rows are dropped from {xn} in the retry but {recv}.s2 is not thinned; fit() falls back to the stored vector when its s2 argument is None ({why}): the next attempt fails with a shape error instead of recovering", construct=f"{recv}.s2 not thinned in retry")
+    if n == 0:
+        ctx.rules[rule_id].floor = 0
+
+
 
 def check(ctx):
     prog = ctx.prog
@@ -221,6 +280,7 @@ def check(ctx):
                 ctx.fail(fn, loop, f"retry loop admits fewer than five attempts ({bound}): a run of 2-4 consecutive failures exhausts it", construct=f"retry bound {bound}")
 
     retry_consistency(ctx, prog, fit_fns)
+    stored_noise_consistency(ctx, prog, fit_fns)
 
     ctx.rule("R3", "posterior update after a refit falls back to the previous hyperparameters on LinAlgError", floor=1)
     reach_fit = set()
